@@ -132,6 +132,8 @@ func main() {
 	genRequireGlue()
 	genBufferMethods()
 	genBufferCodecs()
+	genBufferVC()
+	genOtherVC()
 }
 
 // exprString / stmtsString: canonical whitespace-free rendering of AST fragments used for shape matching.
